@@ -460,6 +460,8 @@ def classify(ctx, failure):
             and re.match(r"gama-local \(envelope\): ill-posed network \(defect \d+, \d+ constrained coordinates, \d+ degree\(s\) of "
                          r"freedom left\) is not diagnosed: every point was stripped", w):
         return "F7"
+    if c02.classify(ctx, failure) == "F22":      # envelope under-counts the defect (recorded under C02 as well)
+        return "F22"
     if inp.get("stream") == "ls" and inp.get("alg") == "svd" and re.match(
             r"svd: unknowns flagged as dependent \[[\d, ]+\]: deleting them leaves a rank-deficient matrix", w):
         return "F7-svd"
